@@ -44,8 +44,8 @@ fn engine_for(prop: &str) -> Box<dyn Engine> {
         "C05" => Box::new(qeng::QueryEngine {
             prop: "C05",
             suite: qeng::c05_suite,
-            rule: "every query SELECT id, keys.. FROM t ORDER BY keys [LIMIT l] [OFFSET o] for all single keys over {int, nullable int, float, nullable float, string, nullable string, i+ni, absent column, u32-range int (compressed section), full-width i64, nullable full-width i64} x ASC/DESC x every (l, o) in [0, n+2]^2, a covering set of two-key lists (every ordered pair of base columns) and two three-key lists with representative windows, plus queries without ORDER BY (ingestion order) with and without a filter, on 4 physical layouts; oracle: the sequence of returned key tuples equals the reference sorted[o..o+l] (NULL last ascending, first descending; ties in any order), every returned row is a distinct row of the filtered table, length = min(l, max(0, N-o)). Non-trivial: window neither empty nor the whole table; distinct by query text.",
-            assumptions: &["n = 10 rows (thorough adds n = 24)", "queries the engine declines with TypeError / NotImplemented are counted, not judged"],
+            rule: "every query SELECT id, keys.. FROM t ORDER BY keys [LIMIT l] [OFFSET o] for all single keys over {int, nullable int, float, nullable float, string, nullable string, i+ni, absent column, u32-range int (compressed section), full-width i64, nullable full-width i64} x ASC/DESC x every (l, o) in [0, n+2]^2, a covering set of two-key lists (every ordered pair of base columns) and two three-key lists with representative windows, plus queries without ORDER BY (ingestion order) with and without a filter, on 4 physical layouts; plus a 40-row table in one partition streamed in batches of 8 / 16 rows with every single key x direction x 10 windows whose LIMIT + OFFSET lies around the batch sizes (the top-n heap fills over several streamed batches); oracle: the sequence of returned key tuples equals the reference sorted[o..o+l] (NULL last ascending, first descending; ties in any order), every returned row is a distinct row of the filtered table, length = min(l, max(0, N-o)). Non-trivial: window neither empty nor the whole table; distinct by query text.",
+            assumptions: &["n = 10 rows (thorough adds n = 24), n = 40 for the streamed top-n cases", "queries the engine declines with TypeError / NotImplemented are counted, not judged"],
         }),
         "C06" => Box::new(qeng::QueryEngine {
             prop: "C06",
